@@ -27,6 +27,9 @@ func checkC20(c *Ctx) {
 	c.Decides("DRAW: every rand.Intn/Int31n/Int63n/Perm call site is classified (reservoir, reservoir with replacement, inside-out Fisher–Yates, uniform index pick, permutation) and its argument must be the unique range that makes the idiom unbiased: c+1 for the item at zero-based position c of a reservoir, the running count (incremented before the draw) for replacement sampling, i+1 for the shuffle, len(s) for a pick from s")
 	c.DoesNotDecide("the distribution of generated tree topologies or of anything computed after the draw; quality of math/rand itself; rand.Perm/Intn are trusted uniform")
 	c.Trusted = append(c.Trusted, "math/rand.Intn(n) is uniform on [0,n), rand.Perm(n) a uniform permutation")
+	c.Decides("ROTATE-ALL: RotateInternalNodes shuffles every node that has at least two neighbours (the bifurcating root of a rooted tree included)")
+	c.rotateAll("ROTATE-ALL")
+	c.Floor("ROTATE-ALL", 1)
 	c.Floor("DRAW", 6)
 	n := 0
 	for _, p := range c.All {
